@@ -7,5 +7,7 @@ PROPS=${2:-all}
 cd /repo || exit 3
 if ! git diff --quiet; then echo "/repo has local changes"; exit 3; fi
 git apply "$S/patch.diff" || { echo "patch does not apply"; exit 3; }
-trap 'git -C /repo checkout -- . ' EXIT
+# the evidence files describe the unchanged tree: keep them aside while the seeded tree is checked
+EV=$(mktemp -d); cp -a /verif/evidence/. "$EV"/
+trap 'git -C /repo checkout -- . ; cp -a "$EV"/. /verif/evidence/ ; rm -rf "$EV"' EXIT
 cd /verif && ./run -prop "$PROPS" -nomutants 2>&1 | grep -E "^==|^violated|^VIOLATION|^UNDECIDED|^KNOWN" | cut -c1-260
